@@ -6,6 +6,7 @@ CONSTANTS
   NotifyMode = "token"
   TempApps = {1, 2}
   TwoPhaseApps = {}
+  DrainOnlyApps = {}
   ExitMode = "recheck"
 INVARIANTS FIFO LockOK
 CONSTRAINT Mark
